@@ -17,7 +17,7 @@ import (
 )
 
 type cfg struct {
-	codeLen, maxVerify, maxCount int
+	codeLen, maxVerify, maxCount       int
 	ttlValid, tooFreq, refreshed, mock bool
 }
 
@@ -57,10 +57,10 @@ type rec struct {
 }
 
 type st struct {
-	c    cfg
-	l    vcode.VCLogic
-	cap  *capture
-	m    map[pair]*rec
+	c   cfg
+	l   vcode.VCLogic
+	cap *capture
+	m   map[pair]*rec
 }
 
 func mockCode(phone string, n int) string {
